@@ -374,4 +374,22 @@ theorem findMatchPrice_crossing (v : View) (prec : Nat) (hprec : 10 ^ prec < 2 ^
   rw [hmid, hk3]
 
 
+
+/-- a found price means: there is a buy, a sell, and they cross -/
+theorem findMatchPrice_some_inv (v : View) (prec : Nat) (p : Int) (h : findMatchPrice v prec = some p) :
+    ∃ hb ls, v.highestBuyPrice = some hb ∧ v.lowestSellPrice = some ls ∧ ls ≤ hb := by
+  unfold findMatchPrice at h
+  cases hhb : v.highestBuyPrice with
+  | none => rw [hhb] at h; cases h
+  | some hb =>
+    cases hls : v.lowestSellPrice with
+    | none => rw [hhb, hls] at h; cases h
+    | some ls =>
+      rw [hhb, hls] at h
+      simp only at h
+      by_cases hc : hb < ls
+      · rw [if_pos hc] at h; cases h
+      · exact ⟨hb, ls, rfl, rfl, by omega⟩
+
+
 end Comdex.Amm
